@@ -198,6 +198,19 @@ func Drive(c *Check, tier string, seed int64, nworkers int, only string) int {
 				continue
 			}
 			kind, detail, confirmed := confirmCrash(self, c, tier, ph, in, aux)
+			if !confirmed && (o.killed || strings.Contains(o.stderr, "fatal error") || strings.Contains(o.stderr, "deadlock")) {
+				// the case alone is fine: the failure depends on the calls made before it in this process.
+				// A worker shard is deterministic, so it is re-run once; the same death at the same case is a
+				// reproducible history-dependent failure (the history is the shard's enumeration order).
+				haux := fmt.Sprintf("shard=%d/%d seed=%d budget=%d", i, nworkers, seed, budgetS)
+				ph2, in2, what, again := rerunShard(self, c, tier, ph, haux, budget)
+				if again && ph2 == ph && in2 == in {
+					crashViol = append(crashViol, Violation{Property: c.ID, Phase: ph, Kind: "fails-after-history", InputHex: hex.EncodeToString([]byte(in)),
+						InputStr: quoteShort(in), Aux: haux,
+						Detail: "the call is fine in a fresh process but " + what + " after the call history of this worker shard (deterministic: the shard was re-run and died at the same case); " + firstLineWith(o.stderr, "fatal error")})
+					continue
+				}
+			}
 			if confirmed {
 				crashViol = append(crashViol, Violation{Property: c.ID, Phase: ph, Kind: kind, InputHex: hex.EncodeToString([]byte(in)),
 					InputStr: quoteShort(in), Aux: aux, Detail: detail})
@@ -331,7 +344,7 @@ func Drive(c *Check, tier string, seed int64, nworkers int, only string) int {
 		if len(newViol) >= 12 {
 			continue // enough replay artefacts; total count is still reported
 		}
-		if v.Kind != "fatal" && v.Kind != "hang" && v.Kind != "race-detector" && !confirmViolation(self, c, tier, v) {
+		if v.Kind != "fatal" && v.Kind != "hang" && v.Kind != "race-detector" && v.Kind != "fails-after-history" && !confirmViolation(self, c, tier, v) {
 			unconfirmed++
 			fmt.Fprintf(os.Stderr, "ENGINE-ERROR: violation did not reproduce identically in fresh processes: %s %s %s\n", v.Phase, v.InputStr, v.Detail)
 			continue
@@ -602,6 +615,16 @@ func ReplayFile(path, tier string, asJSON bool) int {
 		return 2
 	}
 	in, _ := hex.DecodeString(v.InputHex)
+	if v.Kind == "fails-after-history" {
+		self, _ := os.Executable()
+		ph, in2, what, died := rerunShard(self, c, tier, v.Phase, v.Aux, 0)
+		if died && ph == v.Phase && in2 == string(in) {
+			fmt.Printf("VIOLATION property=%s replay=%s\n  phase=%s kind=%s input=%s aux=%q\n  %s\n", v.Property, path, v.Phase, v.Kind, quoteShort(string(in)), v.Aux, what)
+			return 1
+		}
+		fmt.Printf("replay: the worker shard did not die at the recorded case again (property=%s phase=%s)\n", v.Property, v.Phase)
+		return 0
+	}
 	got, eerr := ReplayCase(c, tier, v.Phase, string(in), v.Aux)
 	if eerr != "" {
 		fmt.Fprintln(os.Stderr, "ENGINE-ERROR:", eerr)
@@ -629,4 +652,42 @@ func shmDir() string {
 		return "/dev/shm"
 	}
 	return ""
+}
+
+// rerunShard runs one worker shard of one phase again and reports whether it died, and where.
+func rerunShard(self string, c *Check, tier, phase, haux string, budget time.Duration) (ph, in, what string, died bool) {
+	var shard, n int
+	var seed int64
+	var budgetS int
+	if _, err := fmt.Sscanf(haux, "shard=%d/%d seed=%d budget=%d", &shard, &n, &seed, &budgetS); err != nil {
+		return "", "", "", false
+	}
+	jdir, err := os.MkdirTemp(shmDir(), "vcheck-rerun-")
+	if err != nil {
+		return "", "", "", false
+	}
+	defer os.RemoveAll(jdir)
+	j := filepath.Join(jdir, "j")
+	ctx, cancel := context.WithTimeout(context.Background(), time.Duration(budgetS)*2*time.Second+120*time.Second)
+	defer cancel()
+	cmd := exec.CommandContext(ctx, self, "-worker", "-prop", c.ID, "-tier", tier, "-shard", strconv.Itoa(shard), "-nshards", strconv.Itoa(n),
+		"-seed", strconv.FormatInt(seed, 10), "-budget", strconv.Itoa(budgetS), "-journal", j, "-phase", phase)
+	cmd.Env = append(os.Environ(), "GOMAXPROCS=1")
+	var se bytes.Buffer
+	cmd.Stderr = &se
+	err = cmd.Run()
+	if err == nil {
+		return "", "", "", false
+	}
+	what = "the process dies"
+	if ctx.Err() != nil {
+		what = "the call never returns"
+	} else if strings.Contains(se.String(), "deadlock") {
+		what = "the call blocks forever (all goroutines asleep)"
+	}
+	p, i, _, ok := ReadJournal(j)
+	if !ok {
+		return "", "", "", false
+	}
+	return p, i, what, true
 }
